@@ -66,7 +66,10 @@ MUTANTS = [
     M("c15-conjugate-axes", "C15", (CX, "torch.transpose(real(x), 0, 1), -torch.transpose(imag(x), 0, 1)",
                                     "torch.transpose(real(x), -2, -1), -torch.transpose(imag(x), -2, -1)")),
     M("c15-inverse-no-conj", "C15", (CX, "    return z_star / denominator", "    return z / denominator")),
-    M("c15-alias-guard-removed", "C15", (CX, "        if out is x or out is y:", "        if False:")),
+    M("c15-alias-guard-removed", "C15", (CX, "    if out is not None and (\n        out is x or out is y or _memory_overlaps(out, x) or _memory_overlaps(out, y)\n    ):",
+                                          "    if False:")),
+    M("c15-f12-regression", "C15", (CX, "        out is x or out is y or _memory_overlaps(out, x) or _memory_overlaps(out, y)\n", "        out is x or out is y\n")),
+    M("c15-overlap-start-only", "C15", (CX, "    return a_lo < b_hi and b_lo < a_hi", "    return a_lo == b_lo")),
     M("c15-outer-no-conj", "C15", (CX, "z[1] = torch.ger(real(x), -imag(y)) + torch.ger(imag(x), real(y))",
                                    "z[1] = torch.ger(real(x), imag(y)) + torch.ger(imag(x), real(y))")),
     M("c15-sigmoid-real-only", "C15", (CX, "out = np.exp(z) / (1 + np.exp(z))", "out = np.exp(z) / (1 + np.exp(z.real))")),
